@@ -36,6 +36,20 @@ CHECKS["C16"] = (
     "DESIGN.md section 3, C16",
 )
 
+CHECKS["C03"] = (
+    "ENUM",
+    "model_checking",
+    "bounded exhaustive enumeration of closed trees x formulas x entry points against an executable reference of the specification's satisfaction relation",
+    "All closed trees (depth/node bound) of seven small grammars x all formulas of a typed universe (two nested tree quantifiers, match "
+    "expressions with bindings and optionals, numeric quantifiers with count, every structural predicate, =/str.len/str.to.int atoms, "
+    "negation, and/or) are evaluated through evaluate(AST), evaluate(text), a numeric-quantifier wrapping (quantifier-elimination path) "
+    "and ISLaSolver.check, and compared with mc/ref/sem.py, a direct transcription of the 'Semantics' section of islaspec.rst with Z3 as "
+    "atom oracle. Any UNKNOWN, exception or differing verdict is a violation. Exhaustive within the bounds; nothing is sampled.",
+    "The reference is my reading of islaspec.rst; it returns EITHER (accept anything) for documented-ambiguous corners (ambiguous / "
+    "epsilon-expanding match expressions, str.to.int on non-numerals, count when in_tree's root is a needle, C04's corners). Z3 is trusted for ground atoms.",
+    "DESIGN.md section 3, C03",
+)
+
 NOT_YET = "check not built yet in this round (planned in DESIGN.md section 3)"
 
 
